@@ -63,6 +63,12 @@ def _menu(sp, k, tag):
         d = build("fig55", [0.5, 0.75]).description(sp, prefix=tag + "r", nsym=0)
         d["rewards"][3] = sp.real(tag + "neg", None, 0, hi_open=True)
         return d, "bad"
+    if k == 6:      # malformed in a way that a builtin, not the validator's own raise, reports (max() of no final states)
+        d = build("fig55", [0.5, 0.75]).description(sp, prefix=tag + "r", nsym=0)
+        d["final_states"] = []
+        return d, "bad"
+    if k in (7, 8):  # same size, finals and successor sequence, different grouping
+        return build("regroup", ["x" if k == 7 else "z"]).description(sp, prefix=tag + "r", nsym=0), "ok"
     d = build("p2choice", [[0, 1, 2], P1]).description(sp, prefix=tag + "r", nsym=0)
     x = sp.int(tag + "idx")
     sp.assume(b_or(x < 0, x >= 7))
@@ -86,11 +92,17 @@ def _batch_jobs(tier, seed):
         jobs.append(dict(picks=list(t), _cost=4))
     jobs.append(dict(picks=[0], _cost=1))
     jobs.append(dict(picks=[4], _cost=1))
+    for extra in ([6], [6, 0], [0, 6, 1], [7, 8], [8, 7], [7, 3, 8]):
+        jobs.append(dict(picks=extra, _cost=2))
     return jobs
 
 
 def _alone(sp, desc, prune):
-    t = tad_pipe()
+    # a freshly loaded copy of the modules: the reference must not share module-level state with the batch run
+    from .pipe import LoggingStub
+    rd = repo.load("reverse_dfs", alias="reverse_dfs_ref")
+    t = repo.load("tad", overrides=dict(PROXY_BUILTINS, max=sym_max, min=sym_min), imports={"reverse_dfs": rd}, alias="tad_ref")
+    t.logging = LoggingStub()
     t.logging.reset(400)
     try:
         return "ok", t.StochasticGame(prune_states=prune, **copy.deepcopy(desc)).solve()
@@ -347,3 +359,45 @@ def report_reader(sp, k):
         sp.prove(exp is ValueError, "ValueError on a file that denotes a dictionary")
         return
     sp.prove(exp is not ValueError and got == exp and type(got) is dict, "reader returned %r for %r" % (got, text))
+
+
+@harness("report.end_to_end", props=["C16", "C12"], jobs=lambda tier, seed: [dict(order=o) for o in range(3)], sentinel=True,
+         covers=["solved_entry", "failed_entry"], stubs=["open -> in-memory file", "logging (tad) -> sweep counter"],
+         bounds="CONCRETE: three small dictionaries mixing solvable, no-solution and malformed games in different orders",
+         desc="CONCRETE end-to-end run (not a solver verdict): real run_games -> real save_results_to_file: every line of every block "
+              "reads back to the value run_games produced for that entry; the equality line is the comparison of the two printed "
+              "strategy lists, also for entries that were not solved")
+def report_end_to_end(sp, order):
+    import ast
+    cr = cr_mod()
+    t = tad_pipe()
+    FakeFile.store, FakeFile.opened = {}, []
+    fig = build("fig55", [0.5, 0.75])
+    ok = dict(rewards=[1 if r == G.SYM else r for r in fig.rewards], players=fig.players, transition_list=fig.tl, final_states=fig.finals)
+    ns = build("nosol", ["forced"])
+    nosol = dict(rewards=[1 if r == G.SYM else r for r in ns.rewards], players=ns.players, transition_list=ns.tl, final_states=ns.finals)
+    bad = copy.deepcopy(ok)
+    bad["rewards"][2] = -1
+    games = [{"g_ok": ok, "g_nosol": nosol, "g_bad": bad}, {"g_bad": bad, "g_ok": ok}, {"g_nosol": nosol, "g_ok_2": ok, "g_bad": bad}][order]
+    games = copy.deepcopy(games)
+    t.logging.reset(5000)
+    res = cr.run_games(games)
+    cr.save_results_to_file(res, "inputs/e2e_%d.py" % order)
+    lines = FakeFile.store["outputs/e2e_%d.txt" % order].split("\n")
+    per = 1 + len(FIELDS)
+    sp.prove(len(lines) == per * len(res) + 1, "report has %d lines for %d entries" % (len(lines), len(res)))
+    for i, (n, r) in enumerate(res.items()):
+        blk = lines[i * per + 1:(i + 1) * per]
+        vals = {}
+        for (label, key), line in zip(FIELDS, blk):
+            sp.prove(line.split(":", 1)[0].strip().lower() == label, "label %r where %r is documented" % (line.split(":", 1)[0].strip(), label))
+            vals[key] = line.split(":", 1)[1][1:]
+        sp.prove(vals[None] == n and vals["msg"] == r["msg"], "header/message of block %d" % i)
+        for key in KEYS:
+            if key in ("msg", "total_time"):
+                continue
+            sp.prove(ast.literal_eval(vals[key]) == r[key], "block %s: line for %r reads %s, run_games produced %r" % (n, key, vals[key], r[key]))
+        sp.prove(ast.literal_eval(vals["=="]) == (ast.literal_eval(vals["reachability_strategies"]) == ast.literal_eval(vals["final_strategies"])),
+                 "block %s: equality line says %s but the two printed strategy lists %s" % (
+                     n, vals["=="], "are equal" if vals["reachability_strategies"] == vals["final_strategies"] else "differ"))
+        sp.cover("solved_entry" if r["msg"] == "Game solved" else "failed_entry")
